@@ -81,6 +81,20 @@ fn main() {
     let seed: u64 = get("--seed").and_then(|s| s.parse().ok()).or_else(|| std::env::var("VERIF_SEED").ok().and_then(|s| s.parse().ok())).unwrap_or(0);
     let out = std::io::stdout();
 
+    if let Some(path) = get("--fuzz-input") {
+        // one input of the fuzz_calc target, run the way the target runs it (settings derived from the bytes);
+        // prints the wall-clock seconds so that the driver can judge a libFuzzer timeout / slow-unit artifact
+        // on the release profile, alone
+        let data = std::fs::read(&path).expect("read input");
+        let t0 = std::time::Instant::now();
+        let r = guarded(|| rosu_verif::props::c05::fuzz_one(&data));
+        if let Err(p) = r {
+            println!("PANIC 0 {p}");
+        }
+        println!("SECONDS {:.3}", t0.elapsed().as_secs_f64());
+        println!("DONE");
+        return;
+    }
     if let Some(path) = get("--replay") {
         let v: Value = serde_json::from_str(&std::fs::read_to_string(&path).expect("read replay")).expect("json");
         let adversarial = v.get("domain").and_then(Value::as_str).unwrap_or(&domain) == "adv";
